@@ -721,6 +721,14 @@ def composed_2x2_overflows(glyphs, name):
 
 
 def classify(v, case):
+    if (v["mech"] == "unexpected_exception" and "xAvgCharWidth" in v["detail"].get("trace", "")
+            and "does not fit" in v["detail"]["trace"]
+            and any(s_.get("sparse_ufo") for s_ in case["ds"]["sources"])):
+        # a non-default source that is a UFO of its own lacking most glyphs: the bases its
+        # composites refer to are added as placeholders with the advance 0xFFFF (the sentinel
+        # varLib skips); unlike a layer master this font gets an OS/2 table, whose average
+        # advance then exceeds an int16 when placeholders make up about half of the glyphs
+        return "sparse_ufo_master_placeholder_advances_overflow_avg_char_width"
     if (v["mech"] == "structure_differs_across_masters" and "OTF" in case["func"]
             and closing_point_coincides_in_some_masters(case["ds"], v["detail"]["glyph"])):
         return "closing_point_on_start_point_in_some_masters_only"
